@@ -11,27 +11,59 @@ use crate::{ensure, viol};
 use mqtt_proto::{v5, Error};
 use std::io::{self, ErrorKind};
 
-/// Every stable `io::ErrorKind` except the two that mean "retry" by convention (Interrupted, WouldBlock). UnexpectedEof is
-/// included: a transport may report a torn connection that way, and the decoders must hand it on as that kind.
-pub const KINDS: &[ErrorKind] = &[
-    ErrorKind::ConnectionReset,
-    ErrorKind::BrokenPipe,
-    ErrorKind::TimedOut,
-    ErrorKind::PermissionDenied,
-    ErrorKind::Other,
-    ErrorKind::UnexpectedEof,
-    ErrorKind::ConnectionAborted,
-    ErrorKind::InvalidData,
-    ErrorKind::NotConnected,
-    ErrorKind::InvalidInput,
-    ErrorKind::WriteZero,
-    ErrorKind::OutOfMemory,
-    ErrorKind::Unsupported,
-    ErrorKind::ConnectionRefused,
-    ErrorKind::NotFound,
-    ErrorKind::AddrInUse,
-    ErrorKind::AlreadyExists,
-];
+/// Every `io::ErrorKind` this toolchain knows except the two that mean "retry" by convention (Interrupted, WouldBlock):
+/// the long-established ones first, then the ones std added later (HostUnreachable, NetworkDown, StorageFull, ...), then
+/// whatever kind the operating system's error numbers 1..=200 map to that is not in the list yet (that includes std's
+/// catch-all for numbers it does not classify). UnexpectedEof is included: a transport may report a torn connection
+/// that way, and the decoders must hand it on as that kind.
+pub fn kinds() -> &'static [ErrorKind] {
+    static K: std::sync::OnceLock<Vec<ErrorKind>> = std::sync::OnceLock::new();
+    K.get_or_init(|| {
+        let mut v = vec![
+            ErrorKind::ConnectionReset,
+            ErrorKind::BrokenPipe,
+            ErrorKind::TimedOut,
+            ErrorKind::PermissionDenied,
+            ErrorKind::Other,
+            ErrorKind::UnexpectedEof,
+            ErrorKind::ConnectionAborted,
+            ErrorKind::InvalidData,
+            ErrorKind::NotConnected,
+            ErrorKind::InvalidInput,
+            ErrorKind::WriteZero,
+            ErrorKind::OutOfMemory,
+            ErrorKind::Unsupported,
+            ErrorKind::ConnectionRefused,
+            ErrorKind::NotFound,
+            ErrorKind::AddrInUse,
+            ErrorKind::AlreadyExists,
+            ErrorKind::HostUnreachable,
+            ErrorKind::NetworkUnreachable,
+            ErrorKind::NetworkDown,
+            ErrorKind::AddrNotAvailable,
+            ErrorKind::StorageFull,
+            ErrorKind::ResourceBusy,
+            ErrorKind::Deadlock,
+            ErrorKind::NotSeekable,
+            ErrorKind::FileTooLarge,
+            ErrorKind::ReadOnlyFilesystem,
+            ErrorKind::StaleNetworkFileHandle,
+            ErrorKind::ArgumentListTooLong,
+            ErrorKind::TooManyLinks,
+            ErrorKind::IsADirectory,
+            ErrorKind::NotADirectory,
+            ErrorKind::DirectoryNotEmpty,
+            ErrorKind::ExecutableFileBusy,
+        ];
+        for errno in 1..=200 {
+            let k = io::Error::from_raw_os_error(errno).kind();
+            if !v.contains(&k) && k != ErrorKind::Interrupted && k != ErrorKind::WouldBlock {
+                v.push(k);
+            }
+        }
+        v
+    })
+}
 
 /// kinds for one-shot failures: the retryable ones first, then a few others
 pub const ONE_SHOT_KINDS: &[ErrorKind] = &[ErrorKind::Interrupted, ErrorKind::WouldBlock, ErrorKind::TimedOut, ErrorKind::Interrupted, ErrorKind::ConnectionReset, ErrorKind::Other, ErrorKind::UnexpectedEof];
@@ -71,8 +103,8 @@ fn faults<F: Family>(p: &F::Packet, t: &mut Tape, ctx: &mut Ctx) -> CaseResult {
     // the payload shape of the injected error rotates independently of position and kind (17 kinds, 6 shapes)
     let mut shape_ctr = t.pick(sio::ERR_SHAPES as usize);
     for (i, &k) in pos.iter().enumerate() {
-        let kind = KINDS[(i + k) % KINDS.len()];
-        let kinds: &[ErrorKind] = if i % 16 == 0 { KINDS } else { std::slice::from_ref(&kind) };
+        let kind = kinds()[(i + k) % kinds().len()];
+        let kinds: &[ErrorKind] = if i % 40 == 0 { kinds() } else { std::slice::from_ref(&kind) };
         for &kind in kinds {
             for delivery in 0..2 {
                 if delivery == 1 && len > 200_000 && i % 4 != 0 {
@@ -213,7 +245,7 @@ fn faults<F: Family>(p: &F::Packet, t: &mut Tape, ctx: &mut Ctx) -> CaseResult {
             if k >= blen {
                 continue;
             }
-            let kind = KINDS[(i + k) % KINDS.len()];
+            let kind = kinds()[(i + k) % kinds().len()];
             for zero in [false, true] {
                 let ws = [WStep::Accept(3), WStep::Accept(1)];
                 let mut w = ScriptedWriter::new(&ws, blen);
@@ -250,7 +282,7 @@ fn faults<F: Family>(p: &F::Packet, t: &mut Tape, ctx: &mut Ctx) -> CaseResult {
     }
     if inside > 0 {
         ctx.nontrivial(fnv(&enc));
-        ctx.sample(|| format!("{} {} ({} bytes): {} fault positions x kinds {:?} x (async, poll) + encoder faults", F::FAM.name(), fam::render(p), len, pos.len(), KINDS));
+        ctx.sample(|| format!("{} {} ({} bytes): {} fault positions x kinds {:?} x (async, poll) + encoder faults", F::FAM.name(), fam::render(p), len, pos.len(), &kinds()[..6]));
     }
     Ok(())
 }
@@ -271,27 +303,10 @@ fn case_typed<F: Family>(input: &Input, ctx: &mut Ctx) -> CaseResult {
 
 /// conversions between the codec's error types and std::io::Error
 fn conversions(_input: &Input, ctx: &mut Ctx) -> CaseResult {
-    let kinds = [
-        ErrorKind::NotFound,
-        ErrorKind::PermissionDenied,
-        ErrorKind::ConnectionRefused,
-        ErrorKind::ConnectionReset,
-        ErrorKind::ConnectionAborted,
-        ErrorKind::NotConnected,
-        ErrorKind::AddrInUse,
-        ErrorKind::BrokenPipe,
-        ErrorKind::AlreadyExists,
-        ErrorKind::WouldBlock,
-        ErrorKind::InvalidInput,
-        ErrorKind::InvalidData,
-        ErrorKind::TimedOut,
-        ErrorKind::WriteZero,
-        ErrorKind::Interrupted,
-        ErrorKind::Unsupported,
-        ErrorKind::UnexpectedEof,
-        ErrorKind::OutOfMemory,
-        ErrorKind::Other,
-    ];
+    // every kind of the fault-injection list plus the two retry kinds
+    let mut kinds: Vec<ErrorKind> = kinds().to_vec();
+    kinds.push(ErrorKind::Interrupted);
+    kinds.push(ErrorKind::WouldBlock);
     for k in kinds {
         // every payload shape a transport may give the error (message, bare kind, nested io::Error of another
         // kind, source chain leading to another io::Error, OS code, boxed / empty message)
